@@ -314,6 +314,11 @@ impl SplitCtx {
             blob_index_size,
         }
     }
+
+    /// Drop the open blob and start over at the beginning of the block.
+    pub fn reset(&mut self) {
+        *self = Self::new(self.block_size, self.blob_index_size);
+    }
 }
 
 #[derive(Debug)]
